@@ -152,6 +152,14 @@ def run(tier):
     # stream-id bookkeeping must not wrap onto it); then it is abandoned while younger requests are unanswered
     for n in ((32765, 65533) if thorough else (65533,)):
         scheds.append([["S", 1], ["Y", 0], ["Q", 0, n], ["B", 2, 5], ["Y", 0], ["C", 1], ["Y", 0], ["RA", 0], ["Y", 0], ["Q", 100000, 40], ["S", 9], ["Y", 0]])
+    # a response that arrives in two pieces while, in between, another request of the connection is abandoned (whatever reads the
+    # socket must not lose the half-read frame); and an abandoned request whose answer comes only after a long time (virtual clock:
+    # 90 s): its stream id stays owed, nobody else may be sent on it
+    for k in (1, 4, 8, 9, 10, 25):
+        scheds.append([["S", 1, 40], ["S", 2], ["Y", 0], ["RP", 1, k], ["Y", 0], ["C", 2], ["Y", 0], ["RQ", 1], ["Y", 0], ["S", 3], ["Y", 0], ["RA", 0], ["Y", 0]])
+        scheds.append([["S", 1, 300], ["S", 2], ["S", 3], ["Y", 0], ["RP", 2, k], ["C", 3], ["Y", 0], ["C", 1], ["Y", 0], ["RQ", 2], ["Y", 0], ["RA", 0], ["Y", 0]])
+    scheds.append([["S", 1], ["Y", 0], ["C", 1], ["Y", 0], ["T", 90000], ["S", 2], ["Y", 0], ["R", 2], ["Y", 0], ["R", 1], ["Y", 0], ["S", 3], ["Y", 0]])
+    scheds.append([["S", 1], ["S", 2], ["Y", 0], ["C", 2], ["T", 61000], ["S", 3], ["S", 4], ["Y", 0], ["RA", 0], ["Y", 0], ["T", 120000], ["S", 5], ["Y", 0]])
     ntr = 0
     for coal in (True, False):
         sub = scheds if coal else rnd.sample(scheds, min(len(scheds), 3000))
